@@ -96,6 +96,21 @@ def make_plane(name, seed):
         qm = np.asarray(q.mask)
         return q, dict(info, ptype='pupil', z=1.0, ps=DX / 2, shape=tuple(qm.shape[-2:]), amp=np.array(q.amplitude, copy=True),
                        opd=np.array(q.opd, copy=True), mask=qm.sum(0) > 0)
+    if name == 'subclass_opd':
+        # the documented way to model an active element: a subclass whose opd / amplitude properties return the current state,
+        # not what the constructor was given
+        cur_opd, cur_amp = c(a['O2']), c(a['A2'])
+
+        class Active(lentil.Pupil):
+            @property
+            def opd(self):
+                return cur_opd
+
+            @property
+            def amplitude(self):
+                return cur_amp
+        p = Active(amplitude=np.ones(S), opd=np.zeros(S), pixelscale=DX, focal_length=1.0)
+        return p, dict(info, ptype='pupil', z=1.0, ps=DX, amp=a['A2'], opd=a['O2'])
     if name == 'amp_reassigned':
         # the mask was derived from the first amplitude; a new amplitude is assigned afterwards: the mask is still the mask
         holed = c(a['A2']); holed[2, 2] = 0; holed[0, 0] = 0; holed[1, 3] = 0       # support with holes inside its bounding box
@@ -138,7 +153,7 @@ def make_plane(name, seed):
     raise ValueError(name)
 
 
-PLANES = ['plane0', 'pupil', 'pupil2', 'seg', 'seg_fit', 'seg3_fit', 'seg3_fit_b', 'seg3_fit_c', 'seg_scalar', 'pupil_fit', 'mask_scalar', 'mask_scalar_used_rescaled', 'seg_used_rescaled', 'amp_reassigned', 'nomask_rescaled', 'opd_zero_sum', 'px_scalar_other', 'mask_opd', 'amp_mask', 'opd_only',
+PLANES = ['plane0', 'pupil', 'pupil2', 'seg', 'seg_fit', 'seg3_fit', 'seg3_fit_b', 'seg3_fit_c', 'seg_scalar', 'pupil_fit', 'mask_scalar', 'mask_scalar_used_rescaled', 'seg_used_rescaled', 'subclass_opd', 'amp_reassigned', 'nomask_rescaled', 'opd_zero_sum', 'px_scalar_other', 'mask_opd', 'amp_mask', 'opd_only',
           'small', 'tilt', 'image', 'px_other', 'px_tiny']
 PROPS = {'prop': dict(shape=(3, 4), prop_shape=None, oversample=2), 'prop_win': dict(shape=(5, 5), prop_shape=(2, 3), oversample=1),
          'prop_small': dict(shape=(6, 6), prop_shape=(2, 2), oversample=1)}
@@ -372,6 +387,19 @@ def check(st, hist, acc):
                 acc.violation('insert:larger-target', case, 'insert into a larger array is not the centre-aligned embedding')
         except Exception as e:
             acc.violation(f'insert:larger-target:raises:{type(e).__name__}', case, repr(e))
+        # targets that happen to have the shape of one of the wavefront's own Fields, and smaller ones: the centre-aligned crop
+        shapes = {tuple(np.asarray(f.data).shape) for f in w.data if np.ndim(f.data) == 2} | {(max(1, fld.shape[0] - 2), max(1, fld.shape[1] - 1))}
+        for tshape in sorted(shapes):
+            if tshape == tuple(fld.shape):
+                continue
+            buf = np.zeros(tshape)
+            try:
+                ret = w.insert(buf, weight=2)
+                exp = np.real(recentre(iref.astype(complex), fld.shape, tshape)) * 2
+                if rm.maxerr(ret, exp) > 1e-12 * scale ** 2 * 2:
+                    acc.violation('insert:other-target-shape', dict(case, target=tshape), f'insert into a {tshape} array is not the centre-aligned crop / embedding of the {tuple(fld.shape)} intensity')
+            except Exception as e:
+                acc.violation(f'insert:other-target-shape:raises:{type(e).__name__}', dict(case, target=tshape), repr(e))
     if bad:
         st.tainted = True
     acc.outcomes.add(f'{m["ptype"]}-{min(len(w.data), 4)}fields-{tuple(w.shape)}-tilt{min(m["tilt"], 2)}')
